@@ -176,8 +176,9 @@ class GaussianUnitary(Compiler):
         for operations in seq:
             modes = [modes_label.ind for modes_label in operations.reg]
             used_modes.append(modes)
+        # sorted, so that the consecutive indices below follow the order of ``ord_reg``
         # pylint: disable=consider-using-set-comprehension
-        used_modes = list(set([item for sublist in used_modes for item in sublist]))
+        used_modes = sorted(set([item for sublist in used_modes for item in sublist]))
 
         # dictionary mapping the used modes to consecutive non-negative integers
         dict_indices = {used_modes[i]: i for i in range(len(used_modes))}
